@@ -524,6 +524,12 @@ func vfAddIgnore(tot, v Value) (res Value) {
 // Adjacent rows whose first difference is between "" and a non-string are left open.
 // Returns the index of the first offending pair or -1.
 func vfOrdered(rows []vfRow, cols []string, reverse bool) int {
+	i, _ := vfOrdered2(rows, cols, reverse)
+	return i
+}
+
+// vfOrdered2 also reports whether the offending pair is one whose stored encodings order differently.
+func vfOrdered2(rows []vfRow, cols []string, reverse bool) (int, bool) {
 	ev := vfEval{}
 	for i := 1; i < len(rows); i++ {
 		for _, c := range cols {
@@ -540,12 +546,13 @@ func vfOrdered(rows []vfRow, cols []string, reverse bool) int {
 				cmp = -cmp
 			}
 			if cmp > 0 {
-				return i
+				return i, ev.packDisagree > 0
 			}
+			ev.packDisagree = 0
 			break
 		}
 	}
-	return -1
+	return -1, false
 }
 
 // vfHasNode reports whether the tree (including view definitions) has a node satisfying f.
@@ -554,4 +561,44 @@ func vfHasNode(n *vfNode, f func(*vfNode) bool) bool {
 		return false
 	}
 	return f(n) || vfHasNode(n.src, f) || vfHasNode(n.src2, f) || vfHasNode(n.def, f)
+}
+
+// vfEmptyRangeInOr: an or that has an operand "col > c1 and col < c2" which no value satisfies.
+func vfEmptyRangeInOr(e *vfExpr) bool {
+	if e == nil {
+		return false
+	}
+	if e.op == "or" {
+		for _, a := range e.args {
+			if a.op == "paren" {
+				a = a.args[0]
+			}
+			// col < "" (nothing sorts before "" in the stored ordering) is the other unsatisfiable operand
+			if a.isCmp() && ((a.op == "lt" && a.args[0].op == "col" && a.args[1].op == "const" && vfIsEmpty(a.args[1].lit.v)) ||
+				(a.op == "gt" && a.args[1].op == "col" && a.args[0].op == "const" && vfIsEmpty(a.args[0].lit.v))) {
+				return true
+			}
+			if a.op == "and" && len(a.args) == 2 && a.args[0].isCmp() && a.args[1].isCmp() &&
+				a.args[0].args[0].op == "col" && a.args[1].args[0].op == "col" && a.args[0].args[0].name == a.args[1].args[0].name &&
+				a.args[0].args[1].op == "const" && a.args[1].args[1].op == "const" {
+				lo, hi := a.args[0], a.args[1]
+				if (lo.op == "gt" || lo.op == "gte") && (hi.op == "lt" || hi.op == "lte") {
+					c := lo.args[1].lit.v.Compare(hi.args[1].lit.v)
+					if c > 0 || (c == 0 && (lo.op == "gt" || hi.op == "lt")) {
+						return true
+					}
+				}
+			}
+		}
+	}
+	for _, a := range e.args {
+		if vfEmptyRangeInOr(a) {
+			return true
+		}
+	}
+	return false
+}
+
+func vfHasEmptyRangeInOr(n *vfNode) bool {
+	return vfHasNode(n, func(n *vfNode) bool { return n.op == "where" && vfEmptyRangeInOr(n.expr) })
 }
